@@ -352,6 +352,49 @@ def check_platform_threaded(ctx, fl) -> None:
     ctx.floor(rule, n, 20, "calls between platform-parametrised methods of FlowIRConcrete")
 
 
+def option_layer_names(gcc) -> Tuple[str, Dict[str, str]]:
+    """(name of the folded list, local -> accessor it was bound from) in get_component_configuration"""
+    name_src: Dict[str, str] = {}
+    for n in source.walk_own(gcc):
+        if isinstance(n, ast.Assign) and len(n.targets) == 1 and isinstance(n.targets[0], ast.Name) and isinstance(n.value, ast.Call):
+            la = last_attr(n.value) or ""
+            if la.startswith("get_") and "blueprint" in la:
+                name_src[n.targets[0].id] = la
+    fold_loops = [a for c in source.calls_in(gcc) if last_attr(c) == "override_object" and len(c.args) == 2
+                  for a in source.ancestors(c) if isinstance(a, ast.For) and isinstance(a.iter, ast.Name)]
+    return (fold_loops[0].iter.id if fold_loops else "sequence"), name_src
+
+
+def check_layers_unconditional(ctx, gcc, SEQ: str, name_src: Dict[str, str], rule: str) -> None:
+    """The blueprint layers and the component itself enter the folded list on EVERY path (the built-in defaults and the platform override
+    are legitimately conditional).  Shared with C07: the stored description carries fully layered components, because after the store the
+    platform is folded into 'default' and the four blueprint layers can no longer be told apart."""
+    n = 0
+    for st in source.walk_own(gcc):
+        elts = None
+        if isinstance(st, ast.AugAssign) and isinstance(st.target, ast.Name) and st.target.id == SEQ and isinstance(st.value, ast.List):
+            elts = st.value.elts
+        elif isinstance(st, ast.Expr) and isinstance(st.value, ast.Call) and last_attr(st.value) in ("append", "extend") and dotted(st.value.func.value) == SEQ and st.value.args:
+            a0 = st.value.args[0]
+            elts = a0.elts if isinstance(a0, (ast.List, ast.Tuple)) else [a0]
+        if not elts:
+            continue
+        bps = [e.id for e in elts if isinstance(e, ast.Name) and e.id in name_src]
+        if not bps:
+            continue
+        n += 1
+        conds = [a for a in source.ancestors(st) if isinstance(a, (ast.If, ast.IfExp, ast.Try, ast.While, ast.For)) and any(a is x for x in ast.walk(gcc))]
+        ok = not conds
+        ctx.ob(rule, st, ok,
+               "the blueprint layers %s are folded on every path" % bps if ok else
+               "the blueprint layers %s are folded only under a condition (%s): a caller that switches them off gets components without the "
+               "options they inherit - the stored instance description then relies on the FOLDED blueprint (platform merged into default), "
+               "where a default-stage option beats a platform-global one: the reloaded experiment resolves backend/numberThreads differently "
+               "from the experiment that wrote it" % (bps, short(conds[0].test, 40) if hasattr(conds[0], "test") else type(conds[0]).__name__),
+               construct="get_component_configuration: blueprint layers folded unconditionally")
+    ctx.floor(rule, n, 1, "statements that add blueprint layers to the folded sequence")
+
+
 def check_user_layer_every_platform(ctx, pv, rule: str) -> None:
     """The user's variables are written into the stage variables of every platform of the description (the platform argument of
     the setter is the variable of an enclosing loop over the description's platforms) and for every stage.  Shared with C07: the
@@ -518,6 +561,7 @@ def run(ctx) -> None:
                 seq.append("component.override")
             else:
                 seq.append("?" + short(e, 40))
+    check_layers_unconditional(ctx, gcc, SEQ, option_layer_names(gcc)[1], "C04.R2-option-layer-order")
     ok = seq == OPT_LAYERS
     ctx.ob("C04.R2-option-layer-order", gcc, ok,
            "option layers are folded lowest to highest priority: %s" % seq if ok else
